@@ -81,6 +81,10 @@ def _impl_one(op):
     if kind == "DECSRC":
         _, mode, tname, cc, enc, data, src = op
         return canon.impl_dec(mode, tname, cc, enc, data, source=src)
+    if kind == "FRONT":
+        return canon.impl_front(op[1], op[2])
+    if kind == "VIA":
+        return canon.impl_events_via(op[1], op[2], op[3], op[4], op[5])
     if kind == "OBJS":
         return canon.impl_stream_objs(op[1])
     if kind == "INT":
@@ -101,6 +105,8 @@ def op_line(op):
     if op[0] == "DEC":
         _, mode, tname, cc, enc, data = op
         return canon.dec_op(mode, tname, cc, enc, data)
+    if op[0] == "FRONT":
+        return f"FRONT {op[1]} {op[2].hex() or '-'}"
     if op[0] == "DECU":
         return "DECU" + canon.dec_op(*op[1:])[3:]
     if op[0] in ("INT", "BITS", "INTP"):
